@@ -41,4 +41,11 @@ theorem run_after_cleanup_registered :
     GV.Gen.buildCommandSteps.idxOf "defer RemoveAll" < GV.Gen.buildCommandSteps.idxOf "Run" ∧
     GV.Gen.buildCommandSteps.idxOf "Run" < GV.Gen.buildCommandSteps.idxOf "restoreDebugDirFromCache" := by decide
 
+/-- the ownership chain as it stands in main.go (regenerated on every run): not-exist -> nothing; empty -> nothing;
+sentinel present -> RemoveAll; anything else -> refuse.  `decideDir` is the reading of exactly this text; a chain that
+deletes in another branch, or tests something else, no longer has this shape. -/
+theorem debugdir_chain_shape : GV.Gen.debugDirChainShape.toList =
+    "if entries, err := os.ReadDir(flagDebugDir); errors.Is(err, fs.ErrNotExist) { } else if err == nil && len(entries) == 0 { } else if _, err := os.Lstat(sentinel); err == nil { if err := os.RemoveAll(flagDebugDir); err != nil { return nil, fmt.Errorf(\"could not empty debugdir: %v\", err) } } else { return nil, fmt.Errorf(\"debugdir %q has unknown contents; empty it first\", origDir) }".toList := by
+  rfl
+
 end GV.Props.C19
